@@ -1,1 +1,2 @@
+import GinjaxVerif.Properties.C10
 import GinjaxVerif.Properties.C19
